@@ -110,13 +110,29 @@ class RawPayloadDecoder(AbstractSimplePayloadDecoder):
 
             return
 
+        result = noValue
+        underrun = False
+
         while True:
             for value in decodeFun(
                     substrate, asn1Spec, tagSet, length,
                     allowEoo=True, **options):
 
                 if value is eoo.endOfOctets:
+                    if underrun:
+                        # the last item we yield must be the decoded
+                        # value, not an underrun met while waiting for
+                        # the end-of-octets
+                        yield result
+
                     return
+
+                if isinstance(value, SubstrateUnderrunError):
+                    underrun = True
+
+                else:
+                    result = value
+                    underrun = False
 
                 yield value
 
